@@ -288,6 +288,37 @@ def resolveWithMethodShortCircuit (sha : Bytes → H) (st : RState H) : Attempt 
   | .fetched o p => if o.names.isEmpty then (st, .unchanged) else resolveWithMethod sha st (.fetched o p)
   | a => resolveWithMethod sha st a
 
+/-- Model of the seeded variant C15-m11: `resolveWithMethod` has NAMED results and a deferred function that, after the
+    body has returned (and has already stored both hashes on the success path), finishes the stream and replaces a
+    successful result by `(nil, closeErr)` when the stream did not end cleanly (`finishOk = false`). -/
+def resolveWithMethodFinishAfterCommit (sha : Bytes → H) (st : RState H) (a : Attempt D) (finishOk : Bool) :
+    RState H × MethodResult D :=
+  match resolveWithMethod sha st a with
+  | (st', .desc d) => if finishOk then (st', .desc d) else (st', .err .other)
+  | (st', .unchanged) => if finishOk then (st', .unchanged) else (st', .err .other)
+  | r => r
+
+/-- the fingerprint moves only together with a delivered description -/
+theorem resolveLoop_commit (sha : Bytes → H) (env : Version → Attempt D) (st : RState H) :
+    ∀ (l : List Version) (i : Nat) (tried : List Version),
+      (∃ d, (resolveLoop sha env st l i tried).2.1 = .desc d) ∨
+      ((resolveLoop sha env st l i tried).1.lastProtoHash = st.lastProtoHash ∧
+       (resolveLoop sha env st l i tried).1.lastServicesHash = st.lastServicesHash) := by
+  intro l
+  induction l with
+  | nil => intro i tried; right; simp [resolveLoop]
+  | cons m rest ih =>
+    intro i tried
+    cases he : env m with
+    | unimplemented => simp only [resolveLoop, he, resolveWithMethod]; exact ih _ _
+    | fail c => right; simp [resolveLoop, he, resolveWithMethod]
+    | fetched o parsed =>
+      by_cases hc : st.lastProtoHash = some (sha (protoPre o.files)) ∧ st.lastServicesHash = some (sha (svcPre o.names))
+      · right; simp [resolveLoop, he, resolveWithMethod, hc]
+      · cases parsed with
+        | none => right; simp [resolveLoop, he, resolveWithMethod, hc]
+        | some d => left; exact ⟨d, by simp [resolveLoop, he, resolveWithMethod, hc]⟩
+
 /-! ### a concrete history (used by the non-vacuity example in Props) -/
 def exO1 : Obs := { names := [[97], [98]], files := [⟨[102], [1]⟩] }
 def exO1' : Obs := { names := [[98], [97]], files := [⟨[102], [1]⟩] }
